@@ -237,6 +237,12 @@ func checkC07(c caseC07) (Outcome, error) {
 	var out Outcome
 	text := string(c.Text)
 	L := len(text)
+	if hasUnrepresentableDuration(text) {
+		// known finding F2 (C06): such a literal makes the parser itself panic, serial or parallel;
+		// token mutations can glue digits together into one
+		out.Label("excluded:F2-unrepresentable-duration-literal")
+		return out, nil
+	}
 	sr, sb, se := parser.NewSerialParser().Parse(text)
 	want := dumpParse(sr, sb, se)
 	var counts []int
